@@ -519,7 +519,7 @@ def handleFp (pos : V3 Q) (kind : String) (target probe delta : V3 Q) (impl : Li
     | .panic m, _ => v.withDiff true s!"model panics: {m}"
     | _, none => bad "fp matrix"
 
-def handle (case impl : List String) : Verdict :=
+def handle' (case impl : List String) : Verdict :=
   match case with
   | "persp" :: f :: a :: n :: fa :: rest =>
     match f? f, f? a, f? n, f? fa, probesOf rest with
@@ -604,5 +604,7 @@ def handle (case impl : List String) : Verdict :=
         | none => bad "fp probe"
     | _ => bad "fp"
   | _ => bad "unknown op"
+
+def handle (case impl : List String) : Verdict := C09.finalize (handle' case impl)
 
 end Retro.Drv.C08
